@@ -289,6 +289,42 @@ def r6_socket_options(ctx):
            'socket calls in pavex::server: %s' % sorted(set(seen)))
 
 
+def r7_queued_started(ctx):
+    ctx.rule('C16.R7', 'P2 ordering (necessary condition for "requests queued at a worker but not yet started are served"): hyper\'s auto '
+             'connection, when told to shut down before its first poll, closes the socket without reading the request that is already in it '
+             '(graceful_shutdown in the ReadVersion state); the connections taken from the inbox by the drain loop are only spawned, and a '
+             'spawn_local task is not polled before the spawning task suspends — so between the exit of the drain loop and the call that '
+             'signals the coordinator (GracefulShutdown::shutdown, whose first poll sends the signal) the worker must suspend at least once '
+             'on something other than the (closed, empty) inbox.')
+    b = coroutine_of(ctx, 'C16.R7', WK + 'Worker::run')
+    if b is None:
+        return
+    recv = blocks_calling(b, 'tokio::sync::mpsc::bounded::Receiver::recv')
+    gs = blocks_calling(b, 'hyper_util::server::graceful::GracefulShutdown::shutdown')
+    hc = blocks_calling(b, WK + 'Worker::handle_connection')
+    if not (ctx.need('C16.R7', 'recv() in Worker::run', recv) and ctx.need('C16.R7', 'GracefulShutdown::shutdown in Worker::run', gs)):
+        return
+    drained = [h for h in hc if h in b.reachable(b.succ(recv[0]), avoid=gs) and recv[0] in b.reachable(b.succ(h), avoid=gs)]
+    if not ctx.need('C16.R7', 'handle_connection inside the drain loop', drained):
+        return
+    ys = set(yields(b))
+    awaits = []
+    for bb, t in b.calls():
+        if callee(t) != 'core::future::into_future::IntoFuture::into_future':
+            continue
+        if not (b.dominates(recv[0], bb) and b.dominates(bb, gs[0])):
+            continue
+        after = b.reachable(b.succ(bb), avoid=gs)
+        if recv[0] in after:
+            continue                              # still inside the drain loop (the inbox await itself)
+        if after & ys:
+            pl = op_place(t['args'][0])
+            awaits.append((bb, b.locals[pl['l']] if pl else '?'))
+    ctx.ob('C16.R7', 'drained-connections-polled-before-signal', bool(awaits), b.loc(gs[0]),
+           'suspension points between the exit of the drain loop and GracefulShutdown::shutdown(): %s'
+           % ([ty for _, ty in awaits] or 'none — the connections spawned by the drain loop get their first poll after the signal and are closed unread'))
+
+
 def check(ctx):
     r1_acceptor(ctx)
     r2_worker(ctx)
@@ -296,3 +332,4 @@ def check(ctx):
     r4_priority(ctx)
     r5_handle(ctx)
     r6_socket_options(ctx)
+    r7_queued_started(ctx)
